@@ -344,6 +344,23 @@ def random_graph_ops(rng, cls, flavour):
                  'any': rng.choice(['->', '->', '--', '--', '<>', 'oo', 'o>', 'o-'])}[flavour]
             ops.append(['add_edge', s, d, t, {}, validate])
     rng.shuffle(ops)
+    # a tail of edits that keep the node names and (mostly) the number of edges: an edge moved to another pair, deleted
+    # and re-added elsewhere, retyped -- what a cache keyed too weakly would not notice
+    added = [o for o in ops if o[0] == 'add_edge']
+    for _ in range(rng.choice([0, 0, 1, 2, 3])):
+        if not added or len(names) < 3:
+            break
+        _, s, d, t, _, _ = rng.choice(added)
+        a, b = rng.sample(names, 2)
+        kind = rng.choice(['replace', 'retarget', 'retype'])
+        if kind == 'replace':
+            ops.append(['replace_edge', s, d, a, b, None, None])
+        elif kind == 'retarget':
+            ops += [['delete_edge', s, d, None], ['add_edge', a, b, t, {}, validate]]
+        else:
+            other = {'du': '--' if t == '->' else '->', 'd': '->', 'u': '--',
+                     'any': rng.choice(['->', '--', '<>', 'oo', 'o>', 'o-'])}[flavour]
+            ops.append(['change_edge_type', s, d, other])
     return ops
 
 
